@@ -1,6 +1,7 @@
 import MesaModel.Proofs.LegacyC08
 import MesaModel.Proofs.LegacyNetState
 import MesaModel.Proofs.LegacyCalls
+import MesaModel.Proofs.LegacyIndex
 
 /-!
 # C08 — legacy grids: pos, cell contents, empties and empty_mask never disagree
@@ -167,6 +168,56 @@ theorem C08_swap_exchanges (g : Grid) (hi : Inv g) (a b : Aid) (pa pb : Coord) (
     ∀ x, x ≠ pa → x ≠ pb → (g.swap a b).1.content x = g.content x :=
   c08_swap_spec g hi a b pa pb hpa hpb
 
+/-! ## the read paths that take arbitrary integers and slices
+
+`is_cell_empty`, `grid[x]` and `get_cell_list_contents` index `self._grid[x][y]` directly: no `torus_adj`, no
+bounds check, Python's negative-index aliasing.  `grid[ix, iy]` sends ints through `torus_adj` and slices through
+Python slicing.  The model says what these reads return for *all* integers / slices. -/
+
+/-- **`is_cell_empty` for arbitrary integers**: in-grid coordinates are answered for that cell; a coordinate in
+    `-size .. -1` aliases to the cell `size` further (Python indexing from the end) — it still is a cell of the
+    grid and the answer is that cell's emptiness —; anything else raises IndexError -/
+theorem C08_isCellEmpty_any_integers (g : Grid) (hw : 0 < g.w) (hh : 0 < g.h) (p : Coord) :
+    (g.inGrid p → g.isCellEmptyRaw p = .ok (g.isCellEmpty p)) ∧
+    (∀ b, g.isCellEmptyRaw p = .ok b → ∃ c, g.inGrid c ∧ (c.1 = p.1 ∨ c.1 = p.1 + g.w) ∧ (c.2 = p.2 ∨ c.2 = p.2 + g.h) ∧
+      b = g.isCellEmpty c) ∧
+    ((∃ e, g.isCellEmptyRaw p = .error e) ↔ (p.1 < -g.w ∨ g.w ≤ p.1 ∨ p.2 < -g.h ∨ g.h ≤ p.2)) :=
+  c08_isCellEmpty_any_integers g hw hh p
+
+/-- **a slice never reaches outside the list and never repeats an index**: for every list length and every
+    `slice(start, stop, step)` (any integers or `None`; only a zero step raises) the selected indices are
+    in `0 .. n-1`, strictly increasing for a positive step and strictly decreasing for a negative one; `[:]` selects
+    everything in order, `[a:b]` with `0 ≤ a ≤ b ≤ n` selects `a .. b-1`, and with in-range bounds and a positive step
+    exactly the arithmetic progression below `stop` -/
+theorem C08_slices_select_in_range_indices (n : Int) (hn : 0 ≤ n) (s : Grid.PySlice) :
+    (Grid.sliceIndices n s = .error .value ↔ s.step = some 0) ∧
+    (∀ l, Grid.sliceIndices n s = .ok l → (∀ i ∈ l, 0 ≤ i ∧ i < n) ∧ l.Nodup ∧
+      (0 < s.step.getD 1 → l.Pairwise (· < ·)) ∧ (s.step.getD 1 < 0 → l.Pairwise (· > ·))) ∧
+    Grid.sliceIndices n ⟨none, none, none⟩ = .ok ((List.range n.toNat).map fun (k : Nat) => (k : Int)) ∧
+    (∀ a b, 0 ≤ a ∧ a ≤ b ∧ b ≤ n →
+      Grid.sliceIndices n ⟨some a, some b, none⟩ = .ok ((List.range (b - a).toNat).map fun (k : Nat) => a + (k : Int))) ∧
+    (∀ a b st i, 0 ≤ a ∧ a ≤ n ∧ 0 ≤ b ∧ b ≤ n → 0 < st →
+      ∃ l, Grid.sliceIndices n ⟨some a, some b, some st⟩ = .ok l ∧ (i ∈ l ↔ ∃ k : Nat, i = a + (k : Int) * st ∧ i < b)) :=
+  ⟨sliceIndices_error n s, fun l h => sliceIndices_spec n hn s l h, sliceIndices_full n, sliceIndices_simple n,
+   fun a b st i h hst => mem_sliceIndices_step n a b st h hst i⟩
+
+/-- **indexing shows cells of the grid**: every form of `grid[…]` that returns — `grid[x]`, `grid[(x1, y1), …]`,
+    `grid[ix, iy]` with ints and slices — returns the contents of in-grid cells only; `grid[:, :]` is the iteration
+    order, `grid[x, :]` is the column `grid[x]`; `grid[x]` aliases `-width .. -1` to the columns counted from the end
+    and raises IndexError beyond; a tuple of positions is wrapped / rejected position by position like `grid[x, y]` -/
+theorem C08_indexing_shows_cells (g : Grid) (hw : 0 < g.w) (hh : 0 < g.h) :
+    (∀ ix iy cs, g.getItem2 ix iy = .ok cs → ∀ c ∈ cs, g.inGrid c) ∧
+    g.getItem2 (.slice ⟨none, none, none⟩) (.slice ⟨none, none, none⟩) = .ok g.allCells ∧
+    (∀ x, 0 ≤ x ∧ x < g.w → g.getItem2 (.int x) (.slice ⟨none, none, none⟩) = g.getColumn x) ∧
+    (∀ x y, g.getItem2 (.int x) (.int y) = (g.torusAdj (x, y)).map fun c => [c]) ∧
+    (∀ i, (0 ≤ i ∧ i < g.w → g.getColumn i = .ok ((List.range g.h.toNat).map fun (y : Nat) => (i, (y : Int)))) ∧
+          (-g.w ≤ i ∧ i < 0 → g.getColumn i = .ok ((List.range g.h.toNat).map fun (y : Nat) => (i + g.w, (y : Int)))) ∧
+          (i < -g.w ∨ g.w ≤ i → g.getColumn i = .error .index)) ∧
+    (∀ ps cs, g.getMany ps = .ok cs → cs.length = ps.length ∧ (∀ c ∈ cs, g.inGrid c) ∧
+      ∀ pc ∈ ps.zip cs, g.torusAdj pc.1 = .ok pc.2) :=
+  ⟨getItem2_inGrid g hw hh, getItem2_full g hw, getItem2_column g hh, getItem2_int_int g, getColumn_spec g hw,
+   fun ps cs h => getMany_ok g hw hh ps cs h⟩
+
 /-! ## NetworkGrid as a space of its own (beyond the four classes the statement names: same agreement, same style)
 
 `Net` (Model/LegacyNbhd.lean) models `NetworkGrid.place_agent / remove_agent / move_agent` (after the NG1 repair)
@@ -239,6 +290,16 @@ theorem C08_network_place_remove (t : Net) (hi : NetInv t) (a : Aid) :
    fun v hv => (net_place_res t a v).2 hv, fun v hp => net_remove_placed t hi a v hp, net_remove_unplaced t a⟩
 
 /-! ## non-vacuity and witnesses -/
+
+/-- Python's aliasing on a 3x2 grid: `is_cell_empty((-1, -1))` looks at cell (2, 1); `(3, 0)` raises -/
+example : (run (init 3 2 false true 11) [.place 0 (2, 1)]).isCellEmptyRaw (-1, -1) = .ok false := by rfl
+example : (init 3 2 false true 11).isCellEmptyRaw (3, 0) = .error .index := by rfl
+example : Grid.sliceIndices 5 ⟨some 10, some (-10), some (-2)⟩ = .ok [4, 2, 0] := by rfl
+example : Grid.sliceIndices 5 ⟨some (-2), none, none⟩ = .ok [3, 4] := by rfl
+example : (init 3 2 false true 11).getItem2 (.slice ⟨none, none, some (-1)⟩) (.int 1) = .ok [(2, 1), (1, 1), (0, 1)] := by rfl
+/-- the rows are sliced only if a column was selected: `grid[1:1, ::0]` is `[]`, `grid[:, ::0]` raises -/
+example : (init 3 2 false true 11).getItem2 (.slice ⟨some 1, some 1, none⟩) (.slice ⟨none, none, some 0⟩) = .ok [] := by rfl
+example : (init 3 2 false true 11).getItem2 (.slice ⟨none, none, none⟩) (.slice ⟨none, none, some 0⟩) = .error .value := by rfl
 
 /-- swap on a MultiGrid with shared cells: 0 and 1 exchange cells, 2 stays, the arrivals are at the end -/
 example : let g := run (init 3 3 false true 18) [.place 0 (0, 0), .place 2 (0, 0), .place 1 (1, 1), .place 3 (1, 1), .swap 0 1]
